@@ -686,7 +686,7 @@ package prunner
 // ---------------------------------------------------------------------------------------
 // Mapping of obligations to the fixed property ids (glob patterns on obligation names)
 //
-//@ property C01: prunner.(*PipelineJob).isRunning/ensures* prunner.(*PipelineRunner).runningJobsCount/ensures* prunner.(*PipelineRunner).runningJobsCount/loop* prunner.*/ensures[C01.*] prunner.*/call-pre[(*PipelineRunner).startJob.slotFree]* prunner.*/call-pre[(*PipelineRunner).startJob.notStarted]* prunner.*/call-pre[(*PipelineRunner).startJob.offList]* prunner.*/ensures[T] prunner.*/loop*/inv-*[T] prunner.*/monitor[RI] prunner.*/ensures[ri] prunner.*/call-pre[*.ri]* prunner.*/loop*/inv-*[ri] prunner.*/assert[C01.*] prunner.*/assert[cnt*] lemma/cntFrame* prunner/writers[PipelineJob.Start] prunner/writers[PipelineJob.Completed] prunner/writers[PipelineJob.Canceled] prunner.*/call-pre[(*PipelineRunner).startJob$1.token]* prunner.(*PipelineRunner).startJobsOnWaitList/* prunner.(*PipelineRunner).startJob/* prunner.(*PipelineRunner).cancelJobInternal/* prunner.removeJobFromWaitList/* prunner.*/safety prunner.*/guarantee[T] prunner.*/ensures[C12.keepLive] prunner.(*PipelineRunner).SaveToStore/*[C01.listKeepsLive]
+//@ property C01: prunner/writers[PipelineJob.ID] prunner/writers[PipelineJob.Pipeline] prunner.(*PipelineRunner).initScheduler/* prunner.(*PipelineJob).deinitScheduler/* prunner.(*PipelineJob).isRunning/ensures* prunner.(*PipelineRunner).runningJobsCount/ensures* prunner.(*PipelineRunner).runningJobsCount/loop* prunner.*/ensures[C01.*] prunner.*/call-pre[(*PipelineRunner).startJob.slotFree]* prunner.*/call-pre[(*PipelineRunner).startJob.notStarted]* prunner.*/call-pre[(*PipelineRunner).startJob.offList]* prunner.*/ensures[T] prunner.*/loop*/inv-*[T] prunner.*/monitor[RI] prunner.*/ensures[ri] prunner.*/call-pre[*.ri]* prunner.*/loop*/inv-*[ri] prunner.*/assert[C01.*] prunner.*/assert[cnt*] lemma/cntFrame* prunner/writers[PipelineJob.Start] prunner/writers[PipelineJob.Completed] prunner/writers[PipelineJob.Canceled] prunner.*/call-pre[(*PipelineRunner).startJob$1.token]* prunner.(*PipelineRunner).startJobsOnWaitList/* prunner.(*PipelineRunner).startJob/* prunner.(*PipelineRunner).cancelJobInternal/* prunner.removeJobFromWaitList/* prunner.*/safety prunner.*/guarantee[T] prunner.*/ensures[C12.keepLive] prunner.(*PipelineRunner).SaveToStore/*[C01.listKeepsLive]
 //@ property C03: prunner.*/ensures[C03.*] prunner.*/monitor[RI] prunner.*/ensures[ri] prunner.*/call-pre[*.ri]* prunner.*/loop*/inv-*[ri] prunner.(*PipelineRunner).startJobsOnWaitList/loop* prunner.(*PipelineRunner).startJob/ensures[skipCanceled] prunner.removeJobFromWaitList/* prunner.*/ensures[C05.offList] prunner.*/ensures[C16.defsOnly] prunner.(*PipelineRunner).startJobsOnWaitList/* prunner.(*PipelineRunner).startJob/* prunner.(*PipelineRunner).cancelJobInternal/* prunner.removeJobFromWaitList/* prunner.*/ensures[C12.keepLive] prunner.(*PipelineRunner).SaveToStore/loop* prunner.*/safety prunner.(*PipelineRunner).runningJobsCount/*
 //@ property C04: prunner.*/assert[C04.*] prunner.*/ensures[C04.*] prunner.(*PipelineRunner).startJob/ensures[skipCanceled] prunner.*/ensures[T] prunner.(*PipelineJob).markAsCanceled/* prunner.*/call-pre[(*PipelineRunner).startJob.*]* prunner/writers[PipelineJob.Canceled] prunner.*/monitor[RI] prunner.*/guarantee[T] prunner/writers[PipelineJob.cancelRequested]
 //@ property C05: prunner.*/ensures[C05.*] prunner.*/monitor[RI] prunner.*/ensures[ri] prunner.*/call-pre[*.ri]* prunner.*/loop*/inv-*[ri] prunner.removeJobFromWaitList/* prunner.(*PipelineRunner).runningJobsCount/* prunner.*/ensures[C15.reject] prunner.*/ensures[C15.accept] lemma/cntFrame* prunner.*/loop*/inv-*[others] prunner.*/loop*/inv-*[mine] prunner.*/loop*/inv-*[purged] prunner.(*PipelineRunner).startJobsOnWaitList/* prunner.(*PipelineRunner).startJob/* prunner.(*PipelineRunner).cancelJobInternal/* prunner.removeJobFromWaitList/* prunner.*/safety prunner.*/assert[wl*] prunner.*/assert[dist*]
